@@ -57,6 +57,8 @@ def case_strategy():
         return st.fixed_dictionaries({'identity': st.just(identity), 'policy': policy, 'services': st.lists(st.lists(req, min_size=1, max_size=4), max_size=2),
                                       # how the application hands over the values: lists of str (usual), bytes (LDAP style), ints, or a bare single value
                                       'valrep': st.sampled_from(['str', 'str', 'str', 'str', 'bytes', 'int', 'single']),
+                                      # an attribute query may list the attributes it wants (names drawn from the identity and from outside it)
+                                      'query_attrs': st.one_of(st.none(), st.lists(st.one_of(st.sampled_from(keys), st.sampled_from(NAMES)), min_size=1, max_size=4, unique=True)),
                                       'sp_cats': st.lists(st.sampled_from(sorted(CATS)), max_size=3, unique=True),
                                       'call': st.sampled_from(['authn', 'authn', 'attribute'])})
     return identity.flatmap(rest)
@@ -128,8 +130,11 @@ def run(case):
                                              name_id_policy=samlp.NameIDPolicy(format=saml.NAMEID_FORMAT_TRANSIENT, allow_create='true'),
                                              authn={'class_ref': build.PASSWORD, 'authn_auth': 'https://idp.verif.example/login'})
         else:
+            kwq = {}
+            if case.get('query_attrs'):
+                kwq['attributes'] = [saml.Attribute(name=OIDS.get(n, n), name_format=URI, friendly_name=n) for n in case['query_attrs']]
             resp = idp.create_attribute_response(dict(handed), 'id-req-1', ACS, SP, userid='user-1',
-                                                 name_id=saml.NameID(format=saml.NAMEID_FORMAT_TRANSIENT, text='subject-1'))
+                                                 name_id=saml.NameID(format=saml.NAMEID_FORMAT_TRANSIENT, text='subject-1'), **kwq)
     except Exception as e:
         return 'raised|' + type(e).__name__ + ('' if valrep == 'str' else '|' + valrep), False
     xml = str(resp)
